@@ -40,7 +40,19 @@ static void run_one(const std::string& label, const Paths64& subj, const Paths64
   ++n_exec;
   if (!ok) { emitF(label, "Execute returned false"); return; }
   std::string args = std::to_string((int)ct) + " " + std::to_string((int)fr) + " ";
-  std::string tail = S(subj) + " " + S(clip) + " " + S(sol);
+  // The proved checker takes paths whose edges are non-degenerate.  Repeated vertices (zero-length edges) given to the engine
+  // are removed for the judge only: they change neither a winding number nor the set of x / y values of the input.
+  auto strip = [](const Paths64& ps) {
+    Paths64 r;
+    for (auto& p : ps) {
+      Path64 q;
+      for (auto& v : p) if (q.empty() || !(q.back() == v)) q.push_back(v);
+      while (q.size() > 1 && q.front() == q.back()) q.pop_back();
+      if (q.size() >= 2) r.push_back(q);
+    }
+    return r;
+  };
+  std::string tail = S(strip(subj)) + " " + S(strip(clip)) + " " + S(sol);
   emitS(label, "RECTCHECK " + args + (rev ? "1 " : "0 ") + tail);
   if (also_area) emitS(label + ".area", "SPEC_AREA_RECT " + args + tail);
   stat(std::string("exec.ct") + std::to_string((int)ct));
@@ -199,6 +211,18 @@ static void random_walks(Rng& g, bool thorough) {
       if (self_touching(p)) stat("walk.repeated_vertex");
       if (has_overlap(p)) stat("walk.overlapping_edges");
       stat(Area(p) > 0 ? "walk.area_pos" : (Area(p) < 0 ? "walk.area_neg" : "walk.area_zero"));
+      // repeated vertices (zero-length edges, also tripled) and, now and then, a path that is nothing but a doubled segment
+      // with repeated end points: the sweep then holds zero-extent horizontals and fully retraced edges
+      if (g.chance(25)) {
+        for (int r = (int)g.range(1, 3); r > 0; --r) { size_t i = (size_t)g.range(0, (int64_t)p.size() - 1); p.insert(p.begin() + (long)i, p[i]); }
+        stat("walk.duplicated_vertices");
+      }
+      if (g.chance(6)) {
+        Point64 a(g.range(0, 6), g.range(0, 6)), b = a;
+        if (g.coin()) b.x = (a.x + g.range(1, 5)) % 7; else b.y = (a.y + g.range(1, 5)) % 7;
+        p = Path64{a, a, b, b};
+        stat("walk.doubled_segment_path");
+      }
       (k < ns ? subj : clip).push_back(p);
     }
     stat("walk.inputs");
